@@ -86,7 +86,9 @@ def pool(seed, tier):
         cfgs.append(adapters.random_config(rnd.choice(adapters.ALL_KINDS), rnd))
     specs = []
     for ci, c in enumerate(cfgs):
-        variants = [('float64', 2, 2, 0), ('float32', 2, 2, 0), ('float64', 1, 3, 1)]
+        # two specs share everything but the input values: concurrent calls on one shared module with
+        # the same shapes but different data are what a per-module scratch buffer would corrupt
+        variants = [('float64', 2, 2, 0), ('float64', 2, 2, 3), ('float32', 2, 2, 0), ('float64', 1, 3, 1)]
         if tier == 'thorough':
             variants.append(('float32', 3, 1, 2))
         for dt, N, C, s in variants:
@@ -240,16 +242,44 @@ def hist_main(specfile, cfgjson, out):
     focus = cfg.get('focus')
     hot = [s for s in specs if s['cfg_id'] in focus] if focus else None
 
+    burst = cfg.get('burst')
+    pairs = []
+    if burst:
+        # contention bursts: for every (configuration, dtype) of the focus group that has two specs with
+        # the same shapes but different data, half of the threads hammer one and half the other, on the
+        # one shared module instance, in a tight loop started at a barrier
+        bykey = {}
+        for sp_ in hot:
+            bykey.setdefault((sp_['cfg_id'], sp_['dtype'], sp_['N'], sp_['C']), []).append(sp_)
+        pairs = [v[:2] for k, v in sorted(bykey.items()) if len(v) >= 2]
+    barrier = threading.Barrier(nthreads) if burst and nthreads > 1 else None
+
     def worker(tid):
         rnd = random.Random(hseed * 1000 + tid)
         inject.thread_init(hseed * 7919 + tid, cfg.get('p_yield', 0.02))
-        for k in range(nops):
-            if hot:      # few keys, many threads: every thread hammers the same few module instances
+        if burst:
+            plan = []
+            for pr in pairs:
+                plan.append('barrier')
+                plan += [pr[tid % 2]] * nops
+        else:
+            plan = [None] * nops
+        for k, item in enumerate(plan):
+            if item == 'barrier':
+                if barrier is not None:
+                    try:
+                        barrier.wait(timeout=120)
+                    except threading.BrokenBarrierError:
+                        pass
+                continue
+            if item is not None:
+                spec = item
+            elif hot:      # few keys, many threads: every thread hammers the same few module instances
                 spec = hot[rnd.randrange(len(hot))]
             else:
                 spec = specs[rnd.randrange(len(specs))] if rnd.random() < 0.85 else specs[rnd.randrange(min(12, len(specs)))]
-            with_grad = rnd.random() < 0.3
-            fresh = rnd.random() < (0.05 if hot else 0.2)
+            with_grad = rnd.random() < (0.0 if burst else 0.3)
+            fresh = rnd.random() < (0.0 if burst else 0.05 if hot else 0.2)
             fault = cfg.get('faults') and rnd.random() < 0.08
             ev = {'thread': tid, 'k': k, 'spec': spec['id'], 'grad': with_grad, 'fresh': fresh, 'fault': bool(fault)}
             log(dict(ev, ev='call'))
@@ -353,7 +383,10 @@ def driver(tier, seed, t0):
         for rep in range(1 if tier == 'quick' else 3):
             hcfgs.append({'threads': 8, 'ops': 24 if tier == 'quick' else 60, 'faults': False, 'seed': seed * 100 + 50 + len(hcfgs),
                           'p_yield': [0.05, 0.2, 0.0][(gi + rep) % 3], 'inject': True, 'focus': grp})
-    with ThreadPoolExecutor(6) as ex:
+    for gi, grp in enumerate(groups):
+        hcfgs.append({'threads': 6, 'ops': 8 if tier == 'quick' else 25, 'faults': False, 'seed': seed * 100 + 90 + len(hcfgs),
+                      'p_yield': [0.1, 0.0, 0.3][gi % 3], 'inject': True, 'focus': grp, 'burst': True})
+    with ThreadPoolExecutor(14) as ex:
         futs = []
         for i, hc in enumerate(hcfgs):
             out = os.path.join(WORK, 'hist-%d.json' % i)
